@@ -438,6 +438,23 @@ func VerifC01_RestoreDefaultParameters() {
 	c01Check(d, c01Magic8(0xc8, id), "RestoreDefaultParameters")
 }
 
+// a configured controller whose transport fails (no reply, refused): still exactly one request, and the same bytes
+func c01Configured(proto string) {
+	d := &vDriver{err: errVerifNoReply}
+	u := vClient(d)
+	id := nondetSerial("id")
+	u.devices[id] = Device{Name: "alpha", DeviceID: id, Address: types.ControllerAddrFrom(netip.AddrFrom4([4]byte{192, 168, 1, 100}), 60000), Protocol: proto}
+	door := nondetU8("door")
+	_, err := u.OpenDoor(id, door)
+	verifAssert(err != nil, "OpenDoor: a failed exchange is reported")
+	want := specReq(0x40, id)
+	want[8] = door
+	c01Check(d, want, "OpenDoor (configured "+proto+")")
+}
+
+func VerifC01_ConfiguredUDPFails() { c01Configured("udp") }
+func VerifC01_ConfiguredTCPFails() { c01Configured("tcp") }
+
 // ---- the history half: the same harnesses after an earlier call (quick: six operations, thorough: all)
 
 func VerifC01_T_History_GetDevices() {
